@@ -710,7 +710,12 @@ def api_validate(ctx, acc, name, trace, kinds, timeout=3000):
     acc.repeats = getattr(acc, 'repeats', 0) + nrep
     for v in verdicts:
         if any(k == 'bad-label' for k in v['kinds']):
-            raise ctx.t.ToolError('recorder labelled two different inputs alike (event %d)' % v['idx'])
+            # same label, different argument.  For a parse event the argument is the text the recorder chose: a defect of
+            # the recorder.  For a compile event it is the tree the code's own parser returned for that text: two trees
+            # for one text means the parser is not a function of its input.
+            if recs[v['idx'] - 1].get('ev') == 'parse':
+                raise ctx.t.ToolError('recorder labelled two different inputs alike (event %d)' % v['idx'])
+            v['kinds'] = ['parse-not-deterministic' if k == 'bad-label' else k for k in v['kinds']]
         if v['kinds']:
             r = recs[v['idx'] - 1]
             f = {'kinds': v['kinds'], 'input': ctx.t.text_of(r['i']), 'i': r['i'], 'event': r['ev'], 'proc': r['proc'], 'seq': r['seq'],
